@@ -246,12 +246,8 @@ impl RegExpBuilder {
     /// Build the actual regular expression using the previously given settings.
     #[pyo3(name = "build")]
     fn py_build(&mut self) -> String {
-        let regexp = self.build();
-        if self.config.is_non_ascii_char_escaped {
-            replace_unicode_escape_sequences(regexp)
-        } else {
-            regexp
-        }
+        // Verbose mode writes whitespace as escape sequences even if escaping is not enabled.
+        replace_unicode_escape_sequences(self.build())
     }
 }
 
